@@ -60,6 +60,7 @@ pub fn run_history(c: &MultiCase) -> CaseResult {
         v.label_if(it.model.bottom && it.model.max_frame_h > crate::hist::height_of(&it.model.frame(), it.cols), "bottom_alignment_shrink");
         v.label_if(it.bottom_empty_frame_seen, "bottom_alignment_frame_emptied");
         v.label_if(!it.model.blocks.is_empty(), "static_block");
+        v.label_if(matches!(op, MOp::MpPrintln(t) | MOp::BarPrintln(_, t) if t.len() > it.rows * it.cols) && max_alive >= 1, "printed_line_taller_than_the_terminal");
     }
     it.teardown()?;
     v.nontrivial = max_alive >= 2 && structural;
@@ -81,7 +82,7 @@ pub fn signature(c: &MultiCase) -> Option<&'static str> {
     for o in &c.ops {
         match o {
             MOp::SetAlignment(true) => bottom_seen = true,
-            MOp::Drop(_) | MOp::MpClear | MOp::MpSuspend(_) | MOp::BarSuspend(..) | MOp::MpPrintln(_) | MOp::BarPrintln(..) | MOp::BarPrintlnUnwinding(..) if bottom_seen => bottom = true,
+            MOp::Drop(_) | MOp::DropUnwinding(_) | MOp::MpClear | MOp::MpSuspend(_) | MOp::BarSuspend(..) | MOp::MpPrintln(_) | MOp::BarPrintln(..) | MOp::BarPrintlnUnwinding(..) if bottom_seen => bottom = true,
             _ => {}
         }
     }
@@ -133,8 +134,16 @@ pub fn limited_strategy(tier: Tier) -> BoxedStrategy<MultiCase> {
 pub fn history_strategy(tier: Tier) -> BoxedStrategy<MultiCase> {
     let n = tier.pick(30, 50);
     (16u8..=40)
-        .prop_flat_map(move |cols| (Just(cols), proptest::collection::vec(mop_strategy(cols as usize, false), 0..n), proptest::collection::vec((any::<u16>(), any::<u16>()), 0..2)))
-        .prop_map(|(cols, mut ops, detaches)| {
+        .prop_flat_map(move |cols| {
+            (Just(cols), proptest::collection::vec(mop_strategy(cols as usize, false), 0..n), proptest::collection::vec((any::<u16>(), any::<u16>()), 0..2), proptest::option::weighted(0.12, (any::<u16>(), any::<bool>(), 1usize..3 * cols as usize)))
+        })
+        .prop_map(|(cols, mut ops, detaches, giant)| {
+            // one printed line that alone wraps into more rows than the terminal has (80)
+            if let Some((pos, through_bar, extra)) = giant {
+                let at = crate::hist::pick(pos, ops.len() + 1);
+                let text = "g".repeat(80 * cols as usize + extra);
+                ops.insert(at, if through_bar { MOp::BarPrintln(pos, text) } else { MOp::MpPrintln(text) });
+            }
             // a member that is given another draw target leaves the MultiProgress like a removed one
             // (its slot stays listed but empty): set_draw_target(hidden) on a generated member
             for (pos, sel) in detaches {
@@ -464,7 +473,7 @@ pub fn property() -> Property {
                 cases: |t| t.pick(3_000, 480_000),
                 run: run_history,
                 signature,
-                essential: &["two_bars_alive", "insert", "insert_from_back", "insert_before", "insert_after", "slot_reuse_after_removal", "head_zombie_reaped", "non_head_zombie", "bar_println", "static_block", "bottom_alignment_shrink", "bottom_alignment_frame_emptied"],
+                essential: &["two_bars_alive", "insert", "insert_from_back", "insert_before", "insert_after", "slot_reuse_after_removal", "head_zombie_reaped", "non_head_zombie", "bar_println", "static_block", "bottom_alignment_shrink", "bottom_alignment_frame_emptied", "printed_line_taller_than_the_terminal"],
                 workers: w,
                 decode: Some(|u| decode_multi(u, 0)),
             }),
